@@ -438,6 +438,14 @@ theorem truthy_eq (h : Coherent s.ops s.st l) : s.truthy = .ok (!l.isEmpty) := b
   simp only [Strm.truthy, len_eq h, R.map, R.bind]
   cases l <;> simp
 
+theorem only_eq (h : Coherent s.ops s.st l) :
+    s.only = (match l with | [v] => .ok v | _ => .throw) := by
+  simp only [Strm.only, len_eq h, R.bind]
+  match l, h with
+  | [], _ => rfl
+  | [v], h => simpa [idxRes, pyIndex] using index_eq h 0
+  | _ :: _ :: _, _ => rfl
+
 theorem mem_eq [DecidableEq β] (h : Coherent s.ops s.st l) (a : β) :
     s.mem a = .ok (decide (a ∈ l)) := by
   obtain ⟨b, hb1, hb2⟩ := h.bound
